@@ -37,7 +37,9 @@ def main():
         tier = args[args.index('--tier') + 1]
     keep = '--keep' in args
     skip_tests = '--skip-tests' in args
-    src = '/tmp/seeds/%s' % pid
+    base = os.environ.get('SEED_DIR', '/tmp/seeds')
+    wave = os.environ.get('SEED_WAVE', '')
+    src = '%s/%s' % (base, pid)
     diff = os.path.join(src, '%s.diff' % x)
     demo = os.path.join(src, 'demo_%s.py' % x)
     wt = '/tmp/seedeval-%s-%s-%d' % (pid, x, os.getpid())
@@ -50,8 +52,13 @@ def main():
         out['demo_exit_without_change'] = rc0
         rc, o = sh(['git', 'apply', diff], cwd=wt)
         if rc:
+            rc, o = sh(['git', 'apply', '--3way', diff], cwd=wt)
+            out['applied_with_3way_merge'] = True
+        if rc:
             print('patch does not apply:', o)
             return 3
+        if out.get('applied_with_3way_merge'):
+            sh(['git', 'reset', '-q'], cwd=wt)
         out['files'] = sorted(set(re.findall(r'^\+\+\+ b/(\S+)', open(diff).read(), re.M)))
         rc1, o1 = sh(['/venv/bin/python', demo], cwd=wt, timeout=900)
         out['demo_exit_with_change'] = rc1
@@ -96,9 +103,13 @@ def main():
         print(json.dumps({k: v for k, v in out.items() if k not in (
             'demo_output_with_change', 'checks')}, indent=1))
         if keep and ok:
-            dst = os.path.join(ROOT, 'seeded', '%s-%s' % (pid, x))
+            dst = os.path.join(ROOT, 'seeded', '%s-%s%s' % (pid, wave, x))
             os.makedirs(dst, exist_ok=True)
-            shutil.copyfile(diff, os.path.join(dst, 'patch.diff'))
+            if out.get('applied_with_3way_merge'):
+                rc_, o_ = sh(['git', 'diff'], cwd=wt)
+                open(os.path.join(dst, 'patch.diff'), 'w').write(o_)
+            else:
+                shutil.copyfile(diff, os.path.join(dst, 'patch.diff'))
             shutil.copyfile(demo, os.path.join(dst, 'demo.py'))
             meta = {}
             mp = os.path.join(src, 'meta.json')
